@@ -273,6 +273,10 @@ func genScenario(r *zsimrt.Rand, run, seed uint64, cold bool, c *corpus) *Scenar
 	if focusExpr {
 		nTasks = 2 + r.Intn(3)
 	}
+	crowd := !focusExpr && r.Intn(25) == 0
+	if crowd {
+		nTasks = 7 + r.Intn(8) // "many goroutines": 7..14 tasks with one or two operations each
+	}
 	lateTask := -1
 	if nTasks >= 3 && r.Intn(8) == 0 {
 		lateTask = 1 + r.Intn(nTasks-1)
@@ -324,6 +328,9 @@ func genScenario(r *zsimrt.Rand, run, seed uint64, cold bool, c *corpus) *Scenar
 		}
 		if famShape {
 			nOps = 2 + r.Intn(4)
+		}
+		if crowd {
+			nOps = 1 + r.Intn(2)
 		}
 		if focusGlobal && len(sc.hot) >= 8 {
 			nOps = 4 + r.Intn(10)
